@@ -128,4 +128,58 @@ theorem decItem_wf (fuel : Nat) (inp : Bytes) (t : Tmpl) (r : Bytes) (h : decIte
   obtain ⟨p, _, hd⟩ := dec_sound fuel inp t r h hb
   exact ⟨denotes_wf p t hd, denotes_closed p t hd⟩
 
+theorem mkHsmsMsg_fields (name : Bytes) (st fn wb : Int) (dir : Bytes) (item : Tmpl) (sid : Int) (sys : Bytes) (m : Msg)
+    (h : mkHsmsMsg name st fn wb dir item sid sys = some m) : m.item = item ∧ m.valid = true := by
+  unfold mkHsmsMsg at h
+  split at h
+  · cases h
+  · split at h
+    · cases h
+    · split at h
+      · cases h
+      · unfold checked at h
+        split at h
+        · injection h with h; subst h; exact ⟨rfl, by assumption⟩
+        · cases h
+
+/-- **every data message `hsms.Parse` returns**, for every byte string, is a valid message whose
+item is absent (header-only message) or well formed and variable-free -/
+theorem decode_data_wf (inp : Bytes) (m : Msg) (h : decode inp = some (.data m)) (hb : IsBytes inp) :
+    m.valid = true ∧ (m.item = .empty ∨ (m.item.wf = true ∧ m.item.closed = true)) := by
+  unfold decode at h
+  split at h
+  · cases h
+  · dsimp only at h
+    split at h
+    · -- data message
+      unfold decodeData at h
+      dsimp only at h
+      split at h
+      · cases h
+      · rename_i item hitem
+        rw [Option.map_eq_some_iff] at h
+        obtain ⟨m0, hmk, hm⟩ := h
+        injection hm with hm
+        subst hm
+        obtain ⟨hi, hv⟩ := mkHsmsMsg_fields _ _ _ _ _ _ _ _ _ hmk
+        refine ⟨hv, ?_⟩
+        rw [hi]
+        split at hitem
+        · left; injection hitem with hitem; exact hitem.symm
+        · right
+          unfold decodeText at hitem
+          split at hitem
+          · rename_i t hd
+            injection hitem with hitem; subst hitem
+            exact decItem_wf _ _ _ _ hd (isBytes_drop inp 14 hb)
+          · cases hitem
+    · split at h
+      · unfold decodeCtrl at h
+        split at h
+        · cases h
+        · cases hc : mkCtrl ((inp.drop 4).take 10) with
+          | none => simp [hc] at h
+          | some c => simp [hc] at h
+      · cases h
+
 end Secs
